@@ -106,3 +106,15 @@ def call_at_depth(f, headroom):
         depth += 1
         fr = fr.f_back
     return down(max(0, limit - depth - headroom - 2))
+
+
+@contextlib.contextmanager
+def int_max_str_digits(n):
+    """The process has changed the interpreter's int <-> str digit limit (0 = no limit; 640 is the lowest allowed)."""
+    import sys
+    old = sys.get_int_max_str_digits()
+    sys.set_int_max_str_digits(n)
+    try:
+        yield
+    finally:
+        sys.set_int_max_str_digits(old)
